@@ -10,9 +10,9 @@ CONSTANTS
   GNL2 = 2
   GNC = 1
   GNRs = {1, 2, 3}
-  GCoarse = 5
+  GCoarse = 8
   GThin2 = 5
-  GStride = 20
+  GStride = 14
   GStrideM = 2
   GStrideN = 20
   GRunLen = 50
